@@ -264,6 +264,10 @@ func checkC03(p *Program, r *Report) {
 	// ---- every byte value 0x00-0xff of the query is addressable as a label (shared with C01): a byte
 	// that wraps to the end-of-key slot makes K+"\xff" a false positive
 	checkLabelRangeAs(p, r, "C03.labelrange")
+	// ---- "and then return its value" (shared with C01): the value array layout is decided per element;
+	// a node is decoded with the size it was built with
+	checkVLenWidth(p, r, "C03.vlen-width")
+	checkBigZone(p, r, "C03.bigzone")
 	// ---- keys are bytes (shared with C10): exactness for arbitrary query strings includes bytes >= 0x80
 	checkNoRuneWalk(p, r, "C03.bytes-not-runes", p.Method(p.Trie, "SlimTrie", "Get"), getID, p.Method(p.Trie, "SlimTrie", "RangeGet"), p.Method(p.Trie, "SlimTrie", "Search"), p.Trie.Func("NewSlimTrie"))
 }
